@@ -164,18 +164,11 @@ def _allany(ex, args, is_all):
             return VBool(is_all)
         if isinstance(it, VSeq):
             # quantified: elementwise predicate evaluated without forking
-            i = z3.Int(ex.fresh_name("i!q"))
-            e2 = Env(a.env)
-            ex.pure_mode += 1
-            try:
-                pcn = len(ex.pc)
-                ex.bind_target(g.target, ex.seq_get_pure(it, i), e2)
+            def body(e2):
                 conds = [ex.truthy(ex.ev(c, e2)) for c in g.ifs]
-                body = ex.truthy(ex.ev(n.elt, e2))
-                if len(ex.pc) != pcn:
-                    raise OutOfSubset("assumption inside quantified comprehension")
-            finally:
-                ex.pure_mode -= 1
+                return None, conds + [ex.truthy(ex.ev(n.elt, e2))]
+            i, _, terms = ex.for_arbitrary_index(it, g.target, a.env, body)
+            conds, body = terms[:-1], terms[-1]
             rng = z3.And(i >= 0, i < it.length, *conds)
             r = ex.fresh_const("all" if is_all else "any", z3.BoolSort())
             if is_all:
@@ -356,6 +349,15 @@ def _reversed(ex, args, kw):
         return VList(list(reversed(a.items)), False)
     if isinstance(a, VSeq):
         k = z3.Int("k!rv")
+        if getattr(ex, "deep_feasibility", False):
+            # a named array with its defining axiom (triggered by reads of the new array) instead of a lambda: quantified
+            # facts about the reversed sequence then have usable instantiation patterns
+            r = ex.fresh("reversed", Seq(a.elem))
+            ex.pc.append(r.length == a.length)
+            for rx, ax in zip(r.arrs, a.arrs):
+                ex.pc.append(z3.ForAll([k], z3.Implies(z3.And(0 <= k, k < a.length), z3.Select(rx, k) == z3.Select(ax, a.length - 1 - k)), patterns=[z3.Select(rx, k)]))
+            r.mutable = False
+            return r
         return VSeq(a.elem, [z3.Lambda([k], z3.Select(x, a.length - 1 - k)) for x in a.arrs], a.length, False)
     raise OutOfSubset("reversed")
 
